@@ -117,7 +117,7 @@ qb_log_format_fini(void)
 void
 qb_log_format_set(int32_t target, const char *format)
 {
-	char modified_format[256];
+	char *modified_format = NULL;
 	struct qb_log_target *t = qb_log_target_get(target);
 
 	pthread_rwlock_wrlock(&_formatlock);
@@ -125,8 +125,30 @@ qb_log_format_set(int32_t target, const char *format)
 	free(t->format);
 
 	if (format) {
-		qb_log_target_format_static(target, format, modified_format);
-		t->format = strdup(modified_format);
+		/*
+		 * Room for the format itself plus, for every directive that
+		 * may be expanded here, its field width or the longest value
+		 * (%N can be as long as PATH_MAX).
+		 */
+		size_t size = strlen(format) + 1;
+		const char *p;
+
+		for (p = format; (p = strchr(p, '%')) != NULL; p++) {
+			const char *d = p + 1;
+			unsigned long width;
+
+			if (*d == '-') {
+				d++;
+			}
+			width = isdigit(*d) ? strtoul(d, NULL, 10) : 0;
+			size += PATH_MAX + QB_MIN(width, QB_LOG_ABSOLUTE_MAX_LEN);
+		}
+		modified_format = malloc(size);
+		if (modified_format) {
+			qb_log_target_format_static(target, format,
+						    modified_format, size);
+		}
+		t->format = modified_format;
 	} else {
 		t->format = strdup("[%p] %b");
 	}
@@ -224,7 +246,7 @@ _strcpy_cutoff(char *dest, const char *src, size_t cutoff, int ralign,
  */
 void
 qb_log_target_format_static(int32_t target, const char * format,
-			    char *output_buffer)
+			    char *output_buffer, size_t output_size)
 {
 	char tmp_buf[255];
 	unsigned int format_buffer_idx = 0;
@@ -240,6 +262,9 @@ qb_log_target_format_static(int32_t target, const char * format,
 	}
 
 	while ((c = format[format_buffer_idx])) {
+		if (output_buffer_idx + 1 >= output_size) {
+			break;
+		}
 		cutoff = 0;
 		ralign = QB_FALSE;
 		if (c != '%') {
@@ -260,6 +285,18 @@ qb_log_target_format_static(int32_t target, const char * format,
 			}
 			while (isdigit(format[format_buffer_idx])) {
 				format_buffer_idx += 1;
+			}
+
+			if (format[format_buffer_idx] == '\0') {
+				/* incomplete directive at the end of the
+				 * format: keep it as it is and stop */
+				len = _strcpy_cutoff(output_buffer + output_buffer_idx,
+						     &format[percent_buffer_idx],
+						     0, QB_FALSE,
+						     (output_size -
+						      output_buffer_idx));
+				output_buffer_idx += len;
+				break;
 			}
 
 			switch (format[format_buffer_idx]) {
@@ -290,12 +327,12 @@ qb_log_target_format_static(int32_t target, const char * format,
 			}
 			len = _strcpy_cutoff(output_buffer + output_buffer_idx,
 					     p, cutoff, ralign,
-					     (t->max_line_length -
+					     (output_size -
 					      output_buffer_idx));
 			output_buffer_idx += len;
 			format_buffer_idx += 1;
 		}
-		if (output_buffer_idx >= t->max_line_length - 1) {
+		if (output_buffer_idx >= output_size - 1) {
 			break;
 		}
 	}
